@@ -7,7 +7,8 @@
 //
 // IN tokens:  L<p|s|t> T<t|p|n> req*
 //
-//	L  listener: p plain TCP, s traffic-shaped, t transparent TLS (no CONNECT; T must be n)
+//	L  listener: p plain TCP, s traffic-shaped, t transparent TLS (no CONNECT; T must be n),
+//	   x transparent TLS wrapped by a traffic-shaping listener (no CONNECT; T must be n)
 //	T  what the client does inside the tunnel: t TLS handshake, p plain HTTP, n no tunnel
 //	req = <form>[H]
 //	  form o origin-form, Host: example.com | a absolute http://other.test/.. | s absolute https://other.test/..
@@ -18,7 +19,10 @@
 //
 //	R,i,scheme,host,secure,tls,sess,up,status,hk,mk
 //	  scheme/host = req.URL.Scheme / req.URL.Host seen by the request modifier (- = empty)
-//	  secure = Session().IsSecure(), tls = req.TLS != nil, sess = session ID (first-occurrence index)
+//	  secure = Session().IsSecure(), sess = session ID (first-occurrence index)
+//	  tls = 0 req.TLS is nil | 1 req.TLS is non-nil and, when the client speaks TLS on this connection,
+//	        HandshakeComplete with the version, cipher suite and server name (SNI) the CLIENT side of that
+//	        very connection negotiated | 2 non-nil but not that state (incomplete / empty / different)
 //	  up = tls | plain | none : which origin received it
 //	  status = status the client read on its current (TLS or plain) connection, - none
 //	  hk = kind of net.Conn Session.Hijack returned: r raw, sr shaped raw, t *tls.Conn, st shaped over *tls.Conn, - no hijack
@@ -78,8 +82,16 @@ type reqTok struct {
 	hijack bool
 }
 
+// what the request modifier found in req.TLS
+type tlsSeen struct {
+	present, complete bool
+	version, cipher   uint16
+	sni               string
+}
+
 type rec struct {
 	mu    sync.Mutex
+	tls   map[int]tlsSeen
 	ids   map[string]int
 	q     map[int]string // i -> scheme,host,secure,tls,sess
 	hk    map[int]string
@@ -146,7 +158,10 @@ func (e *rec) ModifyRequest(req *http.Request) error {
 	if _, dup := e.q[i]; dup {
 		e.q[i] += "!dup"
 	} else {
-		e.q[i] = fmt.Sprintf("%s,%s,%s,%s,%d", dash(req.URL.Scheme), dash(req.URL.Host), sec, b01(req.TLS != nil), sid)
+		e.q[i] = fmt.Sprintf("%s,%s,%s,TLS,%d", dash(req.URL.Scheme), dash(req.URL.Host), sec, sid)
+		if cs := req.TLS; cs != nil {
+			e.tls[i] = tlsSeen{true, cs.HandshakeComplete, cs.Version, cs.CipherSuite, cs.ServerName}
+		}
 	}
 	tok, ok := e.ntoks[i]
 	e.mu.Unlock()
@@ -187,7 +202,7 @@ func runCase(in []string) (out []string) {
 		return []string{"BADCASE"}
 	}
 	lk, tk := in[0][1], in[1][1]
-	if !strings.ContainsRune("pst", rune(lk)) || !strings.ContainsRune("tpn", rune(tk)) || (lk == 't') != (tk == 'n') {
+	if !strings.ContainsRune("pstx", rune(lk)) || !strings.ContainsRune("tpn", rune(tk)) || (lk == 't' || lk == 'x') != (tk == 'n') {
 		return []string{"INVALID"}
 	}
 	var toks []reqTok
@@ -198,7 +213,7 @@ func runCase(in []string) (out []string) {
 		toks = append(toks, reqTok{t[0], len(t) == 2})
 	}
 	pref := fmt.Sprintf("c%d-", atomic.AddInt64(&caseNo, 1))
-	e := &rec{ids: map[string]int{}, q: map[int]string{}, hk: map[int]string{}, ntoks: map[int]reqTok{}, pref: pref}
+	e := &rec{tls: map[int]tlsSeen{}, ids: map[string]int{}, q: map[int]string{}, hk: map[int]string{}, ntoks: map[int]reqTok{}, pref: pref}
 	for i, t := range toks {
 		e.ntoks[i+1] = t
 	}
@@ -237,6 +252,8 @@ func runCase(in []string) (out []string) {
 		sl = trafficshape.NewListener(l)
 	case 't':
 		sl = tls.NewListener(l, mc.TLS())
+	case 'x':
+		sl = trafficshape.NewListener(tls.NewListener(l, mc.TLS()))
 	}
 	go p.Serve(sl)
 	defer func() {
@@ -261,11 +278,15 @@ func runCase(in []string) (out []string) {
 	br := bufio.NewReader(cur)
 	dead := false
 	first := 1
-	if lk == 't' {
+	var cstate *tls.ConnectionState // what the client side of this connection negotiated
+	if lk == 't' || lk == 'x' {
 		raw.SetDeadline(time.Now().Add(ioWait))
 		tc := tls.Client(raw, ccfg)
 		if err := tc.Handshake(); err != nil {
 			dead = true
+		} else {
+			cs := tc.ConnectionState()
+			cstate = &cs
 		}
 		cur, br = tc, bufio.NewReader(tc)
 	} else {
@@ -285,6 +306,9 @@ func runCase(in []string) (out []string) {
 			tc := tls.Client(raw, ccfg)
 			if err := tc.Handshake(); err != nil {
 				dead = true
+			} else {
+				cs := tc.ConnectionState()
+				cstate = &cs
 			}
 			cur, br = tc, bufio.NewReader(tc)
 		}
@@ -346,6 +370,17 @@ func runCase(in []string) (out []string) {
 			out = append(out, "N,"+strconv.Itoa(i))
 			continue
 		}
+		tf := "0"
+		if ts := e.tls[i]; ts.present {
+			tf = "1"
+			// request 0 is the CONNECT, read before any TLS inside the tunnel
+			if cstate != nil && i >= first && !(first == 0 && i == 0) {
+				if !ts.complete || ts.version == 0 || ts.version != cstate.Version || ts.cipher != cstate.CipherSuite || ts.sni != ccfg.ServerName {
+					tf = "2"
+				}
+			}
+		}
+		q = strings.Replace(q, ",TLS,", ","+tf+",", 1)
 		up := upSeen[pref+strconv.Itoa(i)]
 		if up == "" {
 			up = "none"
@@ -396,7 +431,7 @@ func main() {
 		return
 	}
 	rng := hx.NewRNG(cfg.Seed)
-	modes := [][2]string{{"Lp", "Tt"}, {"Ls", "Tt"}, {"Lt", "Tn"}, {"Lp", "Tp"}, {"Ls", "Tp"}}
+	modes := [][2]string{{"Lp", "Tt"}, {"Ls", "Tt"}, {"Lt", "Tn"}, {"Lx", "Tn"}, {"Lp", "Tp"}, {"Ls", "Tp"}}
 	forms := []string{"o", "a", "s"}
 	// 1. every listener/tunnel kind x every sequence of <= L keep-alive forms,
 	//    each also with a hijack on its last request and with a host-less last request
